@@ -135,13 +135,27 @@ def rule_shape(chk, head2, test2):
     problems = []
     if any(n.kind in ("break", "continue", "return") for n in region):
         problems.append("the declared-fields loop can stop or skip before all fields were checked")
-    absent = [t for t in region if t.kind == "test" and unparse(t.exprs[0]) in ("%s not in %s" % (key, mparam),)]
+    from .. import exprs as X
+
+    def absent_label(t):
+        """the branch label of test t that means: the declared key is absent from the message (or None)"""
+        e, lab = X.strip_not(t.exprs[0], "true")
+        op = X.compare_of(e, lambda x: isinstance(x, ast.Name) and x.id == key, lambda x: isinstance(x, ast.Name) and x.id == mparam)
+        if isinstance(e, ast.Compare) and len(e.ops) == 1 and isinstance(e.left, ast.Name) and e.left.id == key and isinstance(e.comparators[0], ast.Name) and e.comparators[0].id == mparam:
+            if isinstance(e.ops[0], ast.NotIn):
+                return lab
+            if isinstance(e.ops[0], ast.In):
+                return "false" if lab == "true" else "true"
+        return None
+    absent = [t for t in region if t.kind == "test" and absent_label(t) is not None]
     raises = [n for n in region if n.kind == "raise_stmt" and "ValidationError" in unparse(n.ast)]
-    if not absent or not raises or not all(cfg.edge_dominates(absent[0], "true", r) for r in raises):
+    absent_lab = absent_label(absent[0]) if absent else None
+    if not absent or not raises or not all(cfg.edge_dominates(absent[0], absent_lab, r) for r in raises) \
+            or not cfg.must_pass([s_ for s_, l in absent[0].succ if l == absent_lab], [head, cfg.exit], raises, skip_labels=("exc",))[0]:
         problems.append("a missing declared field does not raise ValidationError")
     vcalls = [(n, c) for n in region for c, m in calls_in_node(n) if isinstance(c.func, ast.Attribute) and c.func.attr == "validate" and isinstance(c.func.value, ast.Name) and c.func.value.id == fld]
     body = [s for s, l in head.succ if l == "body"][0]
-    rng = cfg.count_range(body, [head], lambda x: sum(1 for n, c in vcalls if n is x), avoid_edges={(absent[0], "true")} if absent else ())
+    rng = cfg.count_range(body, [head], lambda x: sum(1 for n, c in vcalls if n is x), avoid_edges={(absent[0], absent_lab)} if absent else ())
     if rng != (1, 1) or not all(len(c.args) == 1 and unparse(c.args[0]) == "%s[%s]" % (mparam, key) for n, c in vcalls):
         problems.append("each present declared field's value is not validated exactly once (range %s)" % (rng,))
     chk.req(not problems, "C14.shape", "_MessageSerializer.validate:every-declared-field-present-and-valid", chk.where(v), good="for every declared field: present, and field.validate(value)", fail="; ".join(problems), sites=len(region))
@@ -274,11 +288,22 @@ def rule_shape(chk, head2, test2):
                         for lp in loops:
                             kv = lp.ast.target.id
                             region = common.loop_region(ocfg, lp)
-                            apps = [n for n in region for c, _m in calls_in_node(n) if isinstance(c.func, ast.Attribute) and c.func.attr == "append" and isinstance(c.func.value, ast.Name)
-                                    and c.func.value.id == lname and len(c.args) == 1 and isinstance(c.args[0], ast.Name) and c.args[0].id == kv]
-                            none_fix = [n for n in region if isinstance(n.ast, ast.Assign) and isinstance(n.ast.targets[0], ast.Name) and n.ast.targets[0].id == kv and unparse(n.ast.value) == "type(None)"
-                                        and any(t.kind == "test" and X.compare_of(X.strip_not(t.exprs[0], lab)[0], lambda x: isinstance(x, ast.Name) and x.id == kv, lambda x: X.is_const(x, None)) is not None
-                                                for t, lab in ocfg.guards_of(n))]
+                            all_apps = [(n, c) for n in region for c, _m in calls_in_node(n) if isinstance(c.func, ast.Attribute) and c.func.attr == "append" and isinstance(c.func.value, ast.Name)
+                                        and c.func.value.id == lname and len(c.args) == 1 and isinstance(c.args[0], ast.Name)]
+                            # the element appended: the loop variable itself (re-bound to NoneType where it is None), or a second name
+                            # bound to NoneType where the loop variable is None and to the loop variable otherwise
+                            elem = {c.args[0].id for n, c in all_apps}
+                            en = elem.pop() if len(elem) == 1 else None
+                            apps = [n for n, c in all_apps] if en is not None else []
+
+                            def none_guard(n):
+                                return any(t.kind == "test" and X.none_branch(t.exprs[0], lab, lambda x: isinstance(x, ast.Name) and x.id == kv) == "none" for t, lab in ocfg.guards_of(n))
+                            none_fix = [n for n in region if isinstance(n.ast, ast.Assign) and isinstance(n.ast.targets[0], ast.Name) and n.ast.targets[0].id == en and unparse(n.ast.value) == "type(None)"
+                                        and none_guard(n)]
+                            if en is not None and en != kv:
+                                others = [n for n in region if isinstance(n.ast, ast.Assign) and isinstance(n.ast.targets[0], ast.Name) and n.ast.targets[0].id == en and n not in none_fix]
+                                if not others or not all(isinstance(n.ast.value, ast.Name) and n.ast.value.id == kv for n in others):
+                                    apps = []
                             body = [s_ for s_, l in lp.succ if l == "body"]
                             if apps and none_fix and ocfg.must_pass(body, [lp], apps, skip_labels=("exc",))[0] and not any(n.kind in ("break", "continue") for n in region):
                                 okt = True
